@@ -76,6 +76,7 @@ type Explorer struct {
 	globalW   map[string]int64
 	frozenW   map[string]int64
 	stubs     map[string]int64
+	lastRet   int64
 }
 
 type ExploreOpts struct {
@@ -126,6 +127,8 @@ type Machine struct {
 	stubCalls     map[string]int64
 	pathUnknown   bool
 	pcCount       int
+	decided       map[*Term]bool
+	concVals      map[*Term]uint64
 	exited        bool
 	onces         map[string]bool
 
@@ -166,6 +169,25 @@ func (m *Machine) branch(c *Term, fr *frame) bool {
 }
 
 func (m *Machine) decide(c *Term, val uint64) bool {
+	// consequences of earlier decisions on this path need neither a query nor a log entry
+	if v, ok := m.decided[c]; ok {
+		return v
+	}
+	if c.op == opNot {
+		if v, ok := m.decided[c.args[0]]; ok {
+			return !v
+		}
+	}
+	r := m.decide1(c, val)
+	if c.op == opNot {
+		m.decided[c.args[0]] = !r
+	} else {
+		m.decided[c] = r
+	}
+	return r
+}
+
+func (m *Machine) decide1(c *Term, val uint64) bool {
 	k := len(m.decisions)
 	if k < len(m.prefix) {
 		d := m.prefix[k]
@@ -217,6 +239,9 @@ func (m *Machine) concretize(t *Term, fr *frame) uint64 {
 	if t.isConst() {
 		return t.c
 	}
+	if v, ok := m.concVals[t]; ok {
+		return v
+	}
 	for i := 0; ; i++ {
 		if i > 4096 {
 			panic(pathEnd{kind: "unsupported", msg: "concretisation of an unbounded term at " + fr.pos()})
@@ -228,7 +253,11 @@ func (m *Machine) concretize(t *Term, fr *frame) uint64 {
 		} else {
 			v = evalTerm(t, m.model)
 		}
-		if m.decide(mkEq(t, mkConst(t.w, v)), v) {
+		c := mkEq(t, mkConst(t.w, v))
+		r := m.decide1(c, v)
+		m.decided[c] = r
+		if r {
+			m.concVals[t] = v
 			return v
 		}
 	}
@@ -242,6 +271,18 @@ func (m *Machine) assume(c *Term, fr *frame) {
 		return
 	}
 	// An assumption is a branch whose false side is discarded.
+	if v, ok := m.decided[c]; ok {
+		if !v {
+			panic(pathEnd{kind: "assume", msg: "assumption false"})
+		}
+		return
+	}
+	defer func() {
+		if recover_ := recover(); recover_ != nil {
+			panic(recover_)
+		}
+		m.decided[c] = true
+	}()
 	k := len(m.decisions)
 	if k < len(m.prefix) {
 		m.decisions = append(m.decisions, m.prefix[k])
@@ -339,6 +380,7 @@ type ExploreResult struct {
 	WallS       float64
 	Incomplete  string
 	WorkersUsed int
+	Ret         int64
 }
 
 func Explore(prog *ssa.Program, entry *ssa.Function, args []value, opts ExploreOpts) *ExploreResult {
@@ -389,6 +431,7 @@ func Explore(prog *ssa.Program, entry *ssa.Function, args []value, opts ExploreO
 	wg.Wait()
 	res := &ExploreResult{Paths: ex.paths, Counts: ex.counts, Reach: ex.reach, Outcomes: ex.outcomes, Samples: ex.samples, Decisions: ex.decisions, Steps: ex.steps, MaxSteps: ex.maxSteps, Solver: ex.solver, Unknowns: ex.unknowns, GlobalW: ex.globalW, FrozenW: ex.frozenW, Stubs: ex.stubs}
 	res.WallS = time.Since(start).Seconds()
+	res.Ret = ex.lastRet
 	if ex.stopped && incomplete == "" {
 		incomplete = "stopped early (path or failure limit)"
 	}
@@ -512,6 +555,8 @@ func (m *Machine) resetPathState() {
 	m.stubCalls = map[string]int64{}
 	m.pathUnknown = false
 	m.pcCount = 0
+	m.decided = map[*Term]bool{}
+	m.concVals = map[*Term]uint64{}
 	m.exited = false
 	m.onces = nil
 	m.reverseMaps = m.ex.opts.ReverseMaps
@@ -600,7 +645,10 @@ func (m *Machine) runPath(item workItem) (out Outcome) {
 		}
 		m.sol.EndPath()
 	}()
-	m.callSSA(m.ex.entry, m.ex.args, nil, nil, nil)
+	ret := m.callSSA(m.ex.entry, m.ex.args, nil, nil, nil)
+	if t, ok := ret.(*Term); ok && t.isConst() {
+		m.ex.lastRet = sx(t.c, t.w)
+	}
 	return
 }
 
